@@ -91,6 +91,11 @@ Inductive op (C : Type) :=
 | UStart (cluster : bool) (name uid : N)                       (* server.go:634 / :721, uploader.go:38 *)
 | UPatch (cluster : bool) (name uid start stop : N) (body : C) (* server.go:659 / :767, uploader.go:55 *)
 | UCommit (cluster : bool) (name uid : N)                      (* server.go:683 / :827, uploader.go:88 *)
+| UCommitRaced (cluster : bool) (name uid start stop : N) (body : C)
+     (* the commit, interleaved with a PATCH of the same upload that passed its checks and opened the
+        upload file before the commit (uploader.go:58-73) and whose body arrives after it (:76):
+        the open descriptor follows the file into the cache dir.  Not covered by the theorems
+        (race_free); known finding C01-late-patch *)
 | Create (name : N) (w : stream C)                             (* ca_store.go:192 CreateCacheFile (proxy) *)
 | Refresh (name : N) (rsv : bool) (stat : N) (w1 w2 : stream C) (pl : Z)
      (* ca_store.go:233 WriteBlobToCacheWithMetaInfo (refresher.go:139).  rsv = TryReserve succeeded
@@ -101,7 +106,7 @@ Inductive op (C : Type) :=
 | Expire                   (* ca_store.go:371 cleanupMemoryCacheExpiredEntries *)
 | Delete (name : N)        (* server.go:361 -> DeleteCacheFile (disk only) *)
 | GenMeta (name : N) (pl : Z).  (* server.go:419 overwriteMetaInfo *)
-Arguments UStart {C}. Arguments UPatch {C}. Arguments UCommit {C}. Arguments Create {C}.
+Arguments UStart {C}. Arguments UPatch {C}. Arguments UCommit {C}. Arguments UCommitRaced {C}. Arguments Create {C}.
 Arguments Refresh {C}. Arguments Drain {C}. Arguments Tick {C}. Arguments Expire {C}.
 Arguments Delete {C}. Arguments GenMeta {C}.
 
@@ -203,6 +208,31 @@ Definition drain_write (s : st) (name : N) (e : ment) : st * bool :=
   | (s', _) => set_meta s' name (m_mi e)
   end.
 
+(* uploader.go:88 commit + server.go:697 / :870; the flag says whether the upload file was renamed
+   into the cache dir *)
+Definition commit_core (s : st) (cluster : bool) (name uid : N) : st * out * bool :=
+  if negb (valid name) then (s, OErr, false)
+  else match alookup uid (ups s) with
+       | None => (s, ONotFound, false)                                  (* ca_store.go:172, uploader.go:91 *)
+       | Some f =>
+           let s1 := set_ups s (aremove uid (ups s)) in                (* ca_store.go:176 deferred delete *)
+           match move_in s1 name f with
+           | (_, MvBad) => (s1, OErr, false)                            (* ca_store.go:183 *)
+           | (_, MvExist) => let '(s2, r) := on_conflict cluster s1 name in (s2, r, false)   (* uploader.go:95 *)
+           | (s2, MvOk) =>
+               (* server.go:697 Generate / server.go:870 writeBack *)
+               let '(s3, ok) := if cluster then write_back s2 name else gen_meta s2 name (c_genpl cf) in
+               (s3, if ok then OOk else OErr, true)
+           end
+       end.
+
+(* a write through a descriptor opened on the upload file before it was renamed *)
+Definition late_write (s : st) (name off : N) (data : bytes) : st :=
+  match alookup name (disk s) with
+  | Some d => set_disk s (aset name (mkdent (write_at (d_data d) off data) (d_meta d) (d_persist d)) (disk s))
+  | None => s
+  end.
+
 Definition expired (s : st) (e : ment) : bool := c_ttl cf <? now s - m_at e.   (* blob_memory_cache.go:186 *)
 
 Definition step (s : st) (o : op bytes) : st * out :=
@@ -222,21 +252,13 @@ Definition step (s : st) (o : op bytes) : st * out :=
                     (set_ups s (aset uid (write_at f start (firstn (N.to_nat n) body)) (ups s)),
                      if len body <? n then OErr else OOk)               (* uploader.go:76-84 *)
            end
-  | UCommit cluster name uid =>
-      if negb (valid name) then (s, OErr)
-      else match alookup uid (ups s) with
-           | None => (s, ONotFound)                                     (* ca_store.go:172, uploader.go:91 *)
-           | Some f =>
-               let s1 := set_ups s (aremove uid (ups s)) in            (* ca_store.go:176 deferred delete *)
-               match move_in s1 name f with
-               | (_, MvBad) => (s1, OErr)                               (* ca_store.go:183 *)
-               | (_, MvExist) => on_conflict cluster s1 name            (* uploader.go:95 *)
-               | (s2, MvOk) =>
-                   (* server.go:697 Generate / server.go:870 writeBack *)
-                   let '(s3, ok) := if cluster then write_back s2 name else gen_meta s2 name (c_genpl cf) in
-                   (s3, if ok then OOk else OErr)
-               end
-           end
+  | UCommit cluster name uid => fst (commit_core s cluster name uid)
+  | UCommitRaced cluster name uid start stop body =>
+      let raced := valid name && negb (exists_blob s name) && has uid (ups s) && (start <? stop) in
+      let '(s', r, moved) := commit_core s cluster name uid in
+      if raced && moved
+      then (late_write s' name start (firstn (N.to_nat (stop - start)) body), r)
+      else (s', r)
   | Create name w =>
       if s_err w then (s, OErr)                                         (* ca_store.go:219 *)
       else match move_in s name (sdata w) with
@@ -301,6 +323,10 @@ Fixpoint run (names : list N) (s : st) (ops : list (op bytes)) : st * list (obs 
               let '(s2, rs) := run names s1 t in
               (s2, (r, views names s1, views names s1) :: rs)
   end.
+
+(* histories the theorems speak about: no PATCH races the commit of its own upload *)
+Definition is_raced (o : op bytes) : bool := match o with UCommitRaced _ _ _ _ _ _ => true | _ => false end.
+Definition race_free (ops : list (op bytes)) : bool := forallb (fun o => negb (is_raced o)) ops.
 
 Fixpoint exec (s : st) (ops : list (op bytes)) : st :=
   match ops with
